@@ -413,6 +413,10 @@ package bigbuff
 //@   inv mutex cleaner : b.cond != nil ==> b.cleaner != nil && b.cleaner.Cleaner != nil && b.cleaner.Cooldown >= 0
 //@   inv mutex wired : b.cond != nil ==> b.consumers != nil && b.ctx != nil && b.cancel != nil && b.done != nil
 
+//@ type CleanerConfig as cc
+//@   # an installed configuration is immutable: SetCleanerConfig installs a fresh one, readers may keep the old pointer
+//@   frozen : Cleaner Cooldown
+
 //@ type consumer as c
 //@   guard mutex : offset
 //@   cond cond : mutex
@@ -562,6 +566,7 @@ package bigbuff
 //@   holds W : b.mutex
 //@   requires inv : b != nil && inv(b.mutex) && b.cond != nil
 //@   loop 0 invariant nil : 0 <= x && x <= shift && shift <= len(b.buffer) && len(b.buffer) == old(len(b.buffer)) && b.offset == old(b.offset) && all(j, shift, len(b.buffer), b.buffer[j] == old(b.buffer[j])) && heldW(b.mutex)
+//@   loop 0 invariant asked : calls(old(b.cleaner.Cleaner)) == 1 && shift > 0 && shift == ite(lastres(old(b.cleaner.Cleaner), 0) > len(b.buffer), len(b.buffer), lastres(old(b.cleaner.Cleaner), 0))
 //@   ensures shifted : b.offset >= old(b.offset) && end(b) == old(end(b)) && b.offset <= old(end(b))
 //@   ensures window : all(i, 0, len(b.buffer), b.buffer[i] == log(b, b.offset + i))
 //@   ensures cons : forall(k, ref, *consumer, has(b.consumers, k) == old(has(b.consumers, k)) && b.consumers[k] == old(b.consumers[k]))
@@ -573,6 +578,10 @@ package bigbuff
 //@   after-call dynamic#0 assume reclaim : forall(p, int, len(arg1) > 0 && 0 <= p && p <= arg0 && all(j, 0, len(arg1), arg1[j] >= p) ==> ret0 >= p)
 //@   ensures reclaimed [C04] : forall(m, int, len(b.consumers) > 0 && old(b.offset) <= m && m <= old(end(b)) && forall(k, ref, *consumer, has(b.consumers, k) ==> b.consumers[k] >= m) ==> b.offset >= m)
 //@   ensures told [C04] : ret ==> icalls("(*sync.Cond).Broadcast") == 1
+//@   # the configured cleaner is consulted on every run, whatever the number of consumers (a fixed-size cleaner trims a
+//@   # buffer nobody consumes), and exactly what it asks for is removed, capped by the size
+//@   ensures consulted [C04] : calls(old(b.cleaner.Cleaner)) == 1
+//@   ensures applied [C04] : b.offset == old(b.offset) + ite(lastres(old(b.cleaner.Cleaner), 0) > old(len(b.buffer)), old(len(b.buffer)), ite(lastres(old(b.cleaner.Cleaner), 0) < 0, 0, lastres(old(b.cleaner.Cleaner), 0)))
 
 //@ func WaitCond
 //@   props C05 C12
